@@ -128,7 +128,7 @@ def _gen_kind(rng, w, names, k):
         return p and {"op": "mkdir", "path": p}
     if k == "symlink":
         p = _new_path(rng, w, names)
-        return p and {"op": "symlink", "path": p, "target": rng.choice(["f1", "../x", "nowhere", "d1"])}
+        return p and {"op": "symlink", "path": p, "target": rng.choice(["f1", "../x", "nowhere", "d1", p.rsplit("/", 1)[-1]])}
     if k == "add":
         vp = w.paths()
         cands = [p for p in w.unv if p.rpartition("/")[0] in vp and not w.ents[vp[p.rpartition("/")[0]]].missing
